@@ -317,3 +317,26 @@ fn c18_io_errors_do_not_panic_or_poison() {
     a.inc(1);
     assert!(mp.println("x").is_err());
 }
+
+/// C03: under bottom alignment, after every bar was finished-and-cleared (an empty, padded frame)
+/// the next printed lines must all stay on screen.
+#[test]
+fn c03_bottom_alignment_empty_frame_then_println() {
+    let term = InMemoryTerm::new(12, 20);
+    let mp = multi(&term);
+    mp.set_alignment(MultiProgressAlignment::Bottom);
+    let a = member(&mp, "a", ProgressFinish::AndLeave);
+    let b = member(&mp, "b", ProgressFinish::AndLeave);
+    let c = member(&mp, "c", ProgressFinish::AndLeave);
+    a.tick();
+    b.tick();
+    c.tick();
+    a.finish_and_clear();
+    b.finish_and_clear();
+    c.finish_and_clear();
+    mp.println("log 1").unwrap();
+    mp.println("log 2").unwrap();
+    mp.println("log 3").unwrap();
+    let s = term.contents();
+    assert!(s.contains("log 1") && s.contains("log 2") && s.contains("log 3"), "{s:?}");
+}
